@@ -45,7 +45,7 @@ theorem advanceHeadFront_one (fuel : Nat) (s : VM) (f : FUid) (h : HUid) (i i' :
     show decide (HeadStatus.active = HeadStatus.inactive) = false from by decide, hstarted, FlowStatus.listening, Bool.not_true, Bool.or_false,
     Bool.false_eq_true, if_false, show decide (HeadStatus.active = HeadStatus.merging) = false from by decide, Bool.false_and, if_true, h0,
     getInst, hi0', hst0, show (FlowStatus.started = FlowStatus.waiting) = False from by simp,
-    attemptPy, tryCatch, tryCatchThe, MonadExceptOf.tryCatch, EStateM.tryCatch, hsl, List.isEmpty_nil,
+    attemptPy, tryCatch, tryCatchThe, MonadExceptOf.tryCatch, EStateM.tryCatch, decide_true, hsl, List.isEmpty_nil,
     F'.hi, hh', Option.isSome_some, Bool.true_and, show decide (hd'.pos ≥ cfg.elements.size) = false from by simp; exact hlt', hst',
     show (FlowStatus.started = FlowStatus.stopping) = False from by simp, show (FlowStatus.started = FlowStatus.starting) = False from by simp,
     Bool.not_false, Bool.and_self]
@@ -203,7 +203,7 @@ theorem advanceHeadFront_chain (fuel : Nat) (f : FUid) (x : InstX) (cfg : FlowCf
           show decide (HeadStatus.active = HeadStatus.inactive) = false from by decide, hstarted, show FlowStatus.started.listening = true from rfl, Bool.not_true, Bool.or_false,
           Bool.false_eq_true, if_false, show decide (HeadStatus.active = HeadStatus.merging) = false from by decide, Bool.false_and, if_true, h0,
           getInst, hi0', hst0, show (FlowStatus.started = FlowStatus.waiting) = False from by simp,
-          attemptPy, tryCatch, tryCatchThe, MonadExceptOf.tryCatch, EStateM.tryCatch, hsl, List.isEmpty_nil,
+          attemptPy, tryCatch, tryCatchThe, MonadExceptOf.tryCatch, EStateM.tryCatch, decide_true, hsl, List.isEmpty_nil,
           F'.hi, hh', Option.isSome_some, Bool.true_and, show decide (hd'.pos ≥ cfg.elements.size) = false from by simp; exact hlt', hst',
           show (FlowStatus.started = FlowStatus.stopping) = False from by simp, show (FlowStatus.started = FlowStatus.starting) = False from by simp,
           Bool.not_false, Bool.and_self]
@@ -715,7 +715,7 @@ theorem advanceHeadFront_one_action (fuel : Nat) (s : VM) (f : FUid) (h : HUid) 
     Bool.not_true, Bool.or_false,
     Bool.false_eq_true, if_false, show decide (HeadStatus.active = HeadStatus.merging) = false from by decide, Bool.false_and, if_true, h0,
     getInst, hi0', hst0, show (FlowStatus.started = FlowStatus.waiting) = False from by simp,
-    attemptPy, tryCatch, tryCatchThe, MonadExceptOf.tryCatch, EStateM.tryCatch, hsl, List.isEmpty_nil,
+    attemptPy, tryCatch, tryCatchThe, MonadExceptOf.tryCatch, EStateM.tryCatch, decide_true, hsl, List.isEmpty_nil,
     F'.hi, hh', Option.isSome_some, Bool.true_and, show decide (hd'.pos ≥ cfg.elements.size) = false from by simp; exact hlt',
     show (FlowStatus.started = FlowStatus.stopping) = False from by simp, show (FlowStatus.started = FlowStatus.starting) = False from by simp,
     Bool.not_false, Bool.and_self]
@@ -878,7 +878,7 @@ theorem and_group_merge_real (fuel : Nat) (s : VM) (f : FUid) (i : Inst) (x : In
     Bool.not_true, Bool.or_false, Bool.false_eq_true, if_false, hq, List.isEmpty_nil, Bool.and_false,
     show (HeadStatus.merging = HeadStatus.active) = False from by simp,
     getInst, show (FlowStatus.started = FlowStatus.waiting) = False from by simp,
-    attemptPy, tryCatch, tryCatchThe, MonadExceptOf.tryCatch, EStateM.tryCatch, hsl, List.isEmpty_cons, hnest,
+    attemptPy, tryCatch, tryCatchThe, MonadExceptOf.tryCatch, EStateM.tryCatch, decide_true, decide_false, hsl, List.isEmpty_cons, hnest,
     List.contains_nil, Bool.not_false, if_true, List.nil_append,
     F2.hi, hgone2, hclr2', Option.isSome_none, Bool.false_and,
     show decide (HeadStatus.inactive = HeadStatus.merging) = false from by decide,
@@ -999,7 +999,7 @@ theorem or_group_merge_real (fuel : Nat) (s : VM) (f : FUid) (i : Inst) (x : Ins
     Bool.not_true, Bool.or_false, Bool.false_eq_true, if_false, hq, List.isEmpty_nil, Bool.and_false,
     show (HeadStatus.merging = HeadStatus.active) = False from by simp,
     getInst, show (FlowStatus.started = FlowStatus.waiting) = False from by simp,
-    attemptPy, tryCatch, tryCatchThe, MonadExceptOf.tryCatch, EStateM.tryCatch, hsl, List.isEmpty_cons, hnest,
+    attemptPy, tryCatch, tryCatchThe, MonadExceptOf.tryCatch, EStateM.tryCatch, decide_true, decide_false, hsl, List.isEmpty_cons, hnest,
     List.contains_nil, Bool.not_false, if_true, List.nil_append,
     F2.hi, hgone2, hclr2', Option.isSome_none, Bool.false_and,
     show decide (HeadStatus.inactive = HeadStatus.merging) = false from by decide,
